@@ -23,10 +23,11 @@ def apply_postprocessing_rules(ts: datetime, art: Artifact) -> Artifact:
     """
     if isinstance(art, Time):
         if art.isTOD:
-            return _latent_tod(ts, art)
+            # the anchored value stands for the same characters of the text
+            return _latent_tod(ts, art).update_span(art)
     if isinstance(art, Interval):
         if art.isTimeInterval:
-            return _latent_time_interval(ts, art)
+            return _latent_time_interval(ts, art).update_span(art)
 
     return art
 
